@@ -461,23 +461,38 @@ func main() {
 	os.MkdirAll(filepath.Join(verifDir, "replays"), 0755)
 	var violationLines, knownLines []string
 	var shrinkNotes []string
+	var infraNotes []string
 	for ci, class := range classes {
 		if ci >= 6 {
 			break
 		}
 		f := byClass[class][0]
 		min := filepath.Join(work, fmt.Sprintf("min-%d.json", ci))
-		out, code := runCmd(time.Duration(shrinkBudget+120)*time.Second, worker, "-shrink", f, "-shrink-budget", fmt.Sprintf("%.0f", shrinkBudget), "-out", min)
-		if code != 0 {
-			fmt.Fprintf(os.Stderr, "%s\n", out)
-			infra("a failure of class %q did not reproduce or could not be minimised (exit %d): simulator nondeterminism, not a property violation", class, code)
+		out, code := "step-limit failures are not minimised (every candidate runs to the limit)", 9
+		if class != "steplimit" {
+			out, code = runCmd(time.Duration(shrinkBudget+60)*time.Second, worker, "-shrink", f, "-shrink-budget", fmt.Sprintf("%.0f", shrinkBudget), "-out", min)
 		}
-		shrinkNotes = append(shrinkNotes, strings.TrimSpace(out))
-		// replay the minimised file in a fresh process: must fail the same way
-		out, code = runCmd(5*time.Minute, worker, "-replay", min)
-		if code != 1 {
-			fmt.Fprintf(os.Stderr, "%s\n", out)
-			infra("minimised replay of class %q does not reproduce exactly (exit %d)", class, code)
+		if code == 0 {
+			shrinkNotes = append(shrinkNotes, strings.TrimSpace(out))
+			// replay the minimised file in a fresh process: must fail the same way
+			out, code = runCmd(5*time.Minute, worker, "-replay", min)
+			if code != 1 {
+				fmt.Fprintf(os.Stderr, "%s\n", out)
+				infraNotes = append(infraNotes, fmt.Sprintf("minimised replay of class %q does not reproduce exactly (exit %d)", class, code))
+				continue
+			}
+		} else {
+			// minimisation failed or ran out of time (e.g. every candidate runs into
+			// the step limit): fall back to the unminimised failure, which must at
+			// least replay exactly from its own tape in a fresh process
+			fmt.Fprintf(os.Stderr, "check: minimisation of class %q failed (exit %d); using the unminimised failure\n%s\n", class, code, out)
+			rout, rcode := runCmd(10*time.Minute, worker, "-replay", f, "-out", min)
+			if rcode != 1 {
+				fmt.Fprintf(os.Stderr, "%s\n", rout)
+				infraNotes = append(infraNotes, fmt.Sprintf("a failure of class %q does not reproduce from its own tape (exit %d): simulator nondeterminism, not a property violation", class, rcode))
+				continue
+			}
+			shrinkNotes = append(shrinkNotes, fmt.Sprintf("class %s: not minimised (exit %d), unminimised replay confirmed", class, code))
 		}
 		b, _ := os.ReadFile(min)
 		var rp replayFile
@@ -511,6 +526,10 @@ func main() {
 	}
 	if len(violationLines) > 0 {
 		exit(1)
+	}
+	if len(infraNotes) > 0 {
+		// something failed but nothing could be confirmed: neither a pass nor a violation
+		infra("%s", strings.Join(infraNotes, "; "))
 	}
 	exit(0)
 }
